@@ -195,6 +195,18 @@ def reapplySkip (sel : Rel) (newSkip : Option Rel) (after : Option UOp) (kw : Op
   | none, .same => return .same
   | _, _ => return .new (← applySkip (skip.get sel.skipTo) (kw.getD sel.slots))
 
+/-- `sql.Engine._nest_unary_over_select(operation, select)`: the operation applied in a new outer query
+level; a Sort without a Slice moves to the outer level when its columns are still available. -/
+def nestOverSelect (op : UOp) (sel : Rel) : Except Err Res := do
+  let s := sel.slots
+  if s.hasSort && !s.hasSlice && (UOp.sortCols s.sort).subset sel.columns then
+    let sub ← reapplySkip sel none none (some { s with sort := [] })
+    let inner ← op.finishApply (sub.get sel)
+    return .new (← applySkip (inner.get (sub.get sel)) { sort := s.sort })
+  else
+    let inner ← op.finishApply sel
+    return .new (← applySkip (inner.get sel) {})
+
 /-- `Select.strip()`. -/
 def strip (sel : Rel) : Rel × Bool :=
   let s := sel.slots
@@ -295,9 +307,8 @@ def appendUnarySel (st : Store) : Nat → AnyOp → Rel → Except Err Res
     let s := sel.slots
     match op with
     | .u (.calc tag e) =>
-      if sel.isCompound || decide (tag ∈ sel.skipTo.columns) then do
-        let inner ← (UOp.calc tag e).finishApply sel
-        return .new (← applySkip (inner.get sel) {})
+      if sel.isCompound || decide (tag ∈ sel.skipTo.columns) then
+        nestOverSelect (.calc tag e) sel
       else if s.hasProj then
         reapplySkip sel none (some (.calc tag e)) (some { s with proj := some (sel.columns.insert tag) })
       else
@@ -336,9 +347,8 @@ def appendUnarySel (st : Store) : Nat → AnyOp → Rel → Except Err Res
           reapplySkip sel (some newSkip) none (some { s with proj := none })
         | _ => reapplySkip sel none none (some { s with proj := some c })
     | .u (.sel p) =>
-      if s.hasSlice || sel.isCompound then do
-        let inner ← (UOp.sel p).finishApply sel
-        return .new (← applySkip (inner.get sel) {})
+      if s.hasSlice || sel.isCompound then
+        nestOverSelect (.sel p) sel
       else
         reapplySkip sel none (some (.sel p)) none
     | .u (.slice a b) => do
